@@ -25,7 +25,7 @@ RULE = (
 )
 ASSUMPTIONS = [
     "'well-formed' = produced by the type table (DESIGN.md Appendix A)",
-    "lossless styles: any origin/relativize, chunk sizes with the default separator, txt_is_utf8 off, truncate_crypto off",
+    "lossless styles: any origin/relativize, chunk sizes with the default separator, txt_is_utf8 on or off, truncate_crypto off",
 ]
 REQUIRED = ["mon.text_roundtrip", "mon.generic_roundtrip", "mon.wire_survivor_to_text", "mon.text_survivor_to_wire"]
 BUDGET = {"quick": 45.0, "thorough": 480.0}
@@ -153,7 +153,7 @@ def render(rd, o, pres, chunks):
         kw["relativize"] = tk["relativize"]
     if chunks is not None:
         style = dns.rdata.RdataStyle(origin=kw.get("origin"), relativize=kw.get("relativize", False) if "origin" in kw else False,
-                                     base64_chunk_size=chunks[0], hex_chunk_size=chunks[1])
+                                     base64_chunk_size=chunks[0], hex_chunk_size=chunks[1], txt_is_utf8=len(chunks) > 2)
         return rd.to_styled_text(style)
     return rd.to_text(**kw)
 
@@ -242,7 +242,7 @@ def check_value(ctx, val, origin):
     if t == "OPT":
         press = []  # OPT is a pseudo-RR without a master-file form (no from_text); only the RFC 3597 form applies
     for pres in press:
-        chunks = rng.choice((None, None, (0, 0), (1, 1), (4, 4), (32, 128), (64, 64), (128, 32)))
+        chunks = rng.choice((None, None, (0, 0), (1, 1), (4, 4), (32, 128), (64, 64), (128, 32), (32, 128, "utf8"), (32, 128, "utf8")))
         wrap = rng.choice(("none", "none", "comment", "paren", "midline"))
         ctx.count("evaluations")
         ctx.count("mon.text_roundtrip")
